@@ -140,3 +140,27 @@ Example C05_example :
   | Err _ => False
   end.
 Proof. vm_compute. repeat split; reflexivity. Qed.
+
+(* ------------------------------------------------------------------------------------------------------
+   Added in build session 4 (statements re-stated from the proof files by harness tooling; each is closed by
+   exact). *)
+From SplipyModel Require Import Transfer.ParamObj Transfer.ParamOps Transfer.ParamOps2.
+Open Scope R_scope.
+Theorem C05_executed_is_proved_raise :
+  forall (tol : Q) (o : obj Q) (raises : list nat),
+         resmap objQ2R (obj_raise_order tol o raises) = obj_raise_order (Q2R tol) (objQ2R o) raises.
+Proof. exact @obj_raise_order_transfer. Qed.
+Print Assumptions C05_executed_is_proved_raise.
+
+Theorem C05_executed_is_proved_lower :
+  forall (tol : Q) (o : obj Q) (lowers : list nat),
+         resmap objQ2R (obj_lower_order tol o lowers) = obj_lower_order (Q2R tol) (objQ2R o) lowers.
+Proof. exact @obj_lower_order_transfer. Qed.
+Print Assumptions C05_executed_is_proved_lower.
+
+Theorem C05_executed_is_proved_basis_raise :
+  forall (tol : Q) (b : basis Q) (amount : nat),
+         basisQ2R (basis_raise_order tol b amount) = basis_raise_order (Q2R tol) (basisQ2R b) amount.
+Proof. exact @basis_raise_order_transfer. Qed.
+Print Assumptions C05_executed_is_proved_basis_raise.
+
